@@ -673,6 +673,10 @@ class _SetOperation(Selectable, Term):  # type:ignore[misc]
                     )
                 )
 
+            if not base_querystring or not set_operation_querystring:
+                # an operand that is no statement yet (nothing selected): there is nothing to render
+                return ""
+
             querystring += set_operation_template.format(
                 type=set_operation.value, query_string=set_operation_querystring
             )
@@ -709,9 +713,8 @@ class _SetOperation(Selectable, Term):  # type:ignore[misc]
     def _operand_sql(cls, operand: Any, set_ctx: SqlContext) -> str:
         if cls._is_unit(operand) and not set_ctx.subquery and set_ctx.dialect == Dialects.SQLITE:
             # SQLite's grammar has no bracketed operands: the unit is written as a FROM-subquery
-            return "SELECT * FROM {operand}".format(
-                operand=operand.get_sql(set_ctx.copy(subquery=True))
-            )
+            operand_sql = operand.get_sql(set_ctx.copy(subquery=True))
+            return "SELECT * FROM {operand}".format(operand=operand_sql) if operand_sql else ""
         return operand.get_sql(cls._operand_ctx(operand, set_ctx))
 
     @staticmethod
